@@ -228,7 +228,13 @@ fn build_transform<T: Facet<'static> + Into<Tree>>(
             continue;
         }
 
-        let Some(v) = m.get(f.name).cloned() else {
+        let d = f.default.map(|df| unsafe { tag.build_from_default_fn(df) });
+        // TODO this could be made lazy
+        let v = if let Some(v) = m.get(f.name).cloned() {
+            build_tagged_value(tag, &ctx, v, d)?
+        } else if let Some(v) = d {
+            v
+        } else {
             return Err(EvalAltResult::ErrorRuntime(
                 format!("field {} must be provided for {}", f.name, T::SHAPE)
                     .into(),
@@ -236,9 +242,6 @@ fn build_transform<T: Facet<'static> + Into<Tree>>(
             )
             .into());
         };
-        let d = f.default.map(|df| unsafe { tag.build_from_default_fn(df) });
-        // TODO this could be made lazy
-        let v = build_tagged_value(tag, &ctx, v, d)?;
         builder = v.put(builder, i);
     }
 
